@@ -844,6 +844,11 @@ fn project_bind_groups(
                 let name = c.ident.to_string();
                 if let Some(no) = name.strip_prefix("LAYOUT_DESCRIPTOR") {
                     let v = expr_val(&c.expr);
+                    // `const LAYOUT_DESCRIPTOR1: .. = LAYOUT_DESCRIPTOR0;`: the value is another group's descriptor
+                    if let Some(other) = vpath(&v).map(last_seg).and_then(|p| p.strip_prefix("LAYOUT_DESCRIPTOR")) {
+                        by_no.entry(no.to_string()).or_default().insert("entries_alias_of".into(), json!(other));
+                        continue;
+                    }
                     let f = &v["f"];
                     let entries: Vec<Value> = f["entries"]
                         .as_array()
@@ -977,6 +982,20 @@ fn project_bind_groups(
                 }
             }
             _ => {}
+        }
+    }
+    // descriptors that are another group's descriptor: same entries, same label
+    let aliases: Vec<(String, String)> = by_no
+        .iter()
+        .filter_map(|(no, m)| m.get("entries_alias_of").and_then(|o| o.as_str()).map(|o| (no.clone(), o.to_string())))
+        .collect();
+    for (no, other) in aliases {
+        let src = by_no.get(&other).map(|m| (m.get("entries").cloned(), m.get("label").cloned()));
+        if let (Some((Some(en), lb)), Some(m)) = (src, by_no.get_mut(&no)) {
+            m.insert("entries".into(), en);
+            if let Some(lb) = lb {
+                m.insert("label".into(), lb);
+            }
         }
     }
     for no in order {
